@@ -117,8 +117,34 @@ class EditHooks(SysHooks):
         return super().call(sm, node, fname, args, kwargs, st)
 
     def loop(self, sm, node, st):
+        # a loop over a short literal tuple / list is unrolled: for x in (a, b): body  ->  body[x:=a]; body[x:=b]
+        if isinstance(node, ast.For) and not node.orelse and isinstance(node.iter, (ast.Tuple, ast.List)) and 1 <= len(node.iter.elts) <= 4 \
+                and not any(isinstance(e, ast.Starred) for e in node.iter.elts):
+            live, done = [st], []
+            for elt in node.iter.elts:
+                nxt = []
+                for s in live:
+                    sm.assign(node.target, sm.expr(elt, s), s, node.lineno)
+                    for s2, status in sm.block(node.body, s):
+                        if status is None or status[0] == "continue":
+                            nxt.append(s2)
+                        elif status[0] == "break":
+                            done.append((s2, None))
+                        else:
+                            done.append((s2, status))
+                live = nxt
+            return [(s, None) for s in live] + done
         if isinstance(node, ast.For) and not node.orelse:
             it = sm.expr(node.iter, st)
+            pair = None
+            # for k in D.keys()  ==  for k in D ;  for k, v in D.items()  ==  for k in D with v = D[k]
+            if isinstance(node.iter, ast.Call) and isinstance(node.iter.func, ast.Attribute) and not node.iter.args and node.iter.func.attr in ("keys", "items"):
+                d = sm.expr(node.iter.func.value, st)
+                if node.iter.func.attr == "keys":
+                    it = d
+                elif isinstance(node.target, ast.Tuple) and len(node.target.elts) == 2 and all(isinstance(e, ast.Name) for e in node.target.elts):
+                    it = d
+                    pair = (node.target.elts[0].id, node.target.elts[1].id)
             if isinstance(it, ListV) and len(it.items) == 1:
                 elem = it.items[0]
             else:
@@ -133,7 +159,11 @@ class EditHooks(SysHooks):
                 if isinstance(a, ast.Call) and isinstance(a.func, ast.Attribute) and a.func.attr == "append" and isinstance(a.func.value, ast.Name) \
                         and isinstance(s0.env.get(a.func.value.id), ListV):
                     s0.env[a.func.value.id] = Sym(("prefix", a.func.value.id, vkey(s0.env[a.func.value.id])))
-            sm.assign(node.target, elem, s0, node.lineno)
+            if pair is not None:
+                s0.env[pair[0]] = elem
+                s0.env[pair[1]] = Sym(("sub", it, elem))
+            else:
+                sm.assign(node.target, elem, s0, node.lineno)
             outs = []
             for s2, status in sm.block(node.body, s0):
                 if status is None or status[0] in ("continue", "break"):
